@@ -3,6 +3,16 @@
 Decided for ALL body lengths S >= 0 and ALL record lengths accepted by the writer's validator at once, by BytesAI
 (relational abstract interpretation: linear constraints + Fourier-Motzkin with integer tightening + parity splits),
 plus structural rules (who may write the file, ordering of the label and the record loop, tiling of the loop).
+
+R01.1 the label is exactly 80 bytes, fields in order and width 4+5+6+5+60, strict ASCII, on every non-raising path.
+R01.2 one producer of the file: every open() for writing is the byte writer's; the label is written first, unframed.
+R01.3 the record length declared in the label is the one the writer enforces.   R01.4 accepted lengths = even 20..16384.
+R01.5 per segment, at every yield of the segmenter: even declared size >= 16 equal to the emitted length, header =
+      UNORM(size) | attribute byte | type byte, pad flag <=> pad bytes each holding the pad count, reserved bits clear.
+R01.6 the attribute byte as a function of the constructor's flags, by interpreting the class whatever container it keeps
+      them in: 0x80 iff EFLR, 0x40 iff not first, 0x20 iff not last; modifying methods change bit 0 only.
+R01.7 every visible record = UNORM(length) | FF 01 | one segment; length even, 20..declared maximum; the record loop
+      tiles the file.
 """
 
 from __future__ import annotations
